@@ -101,6 +101,10 @@ impl<CS: CLCiphersuite> Signature<CL03<CS>> {
         }
         let sign = self.cl03Signature();
 
+        // v is a residue modulo N: (e, s, v + k*N) must not be a second encoding of the same signature
+        if sign.v <= 0 || sign.v >= pk.N {
+            return false;
+        }
         let lhs = Integer::from(sign.v.pow_mod_ref(&sign.e, &pk.N).unwrap());
 
         let rhs = (Integer::from(a_bases.0[0].pow_mod_ref(&message.value, &pk.N).unwrap())
@@ -138,6 +142,10 @@ impl<CS: CLCiphersuite> Signature<CL03<CS>> {
         }
         let sign = self.cl03Signature();
 
+        // v is a residue modulo N: (e, s, v + k*N) must not be a second encoding of the same signature
+        if sign.v <= 0 || sign.v >= pk.N {
+            return false;
+        }
         let lhs = Integer::from(sign.v.pow_mod_ref(&sign.e, &pk.N).unwrap());
 
         let mut rhs = Integer::from(1);
